@@ -117,7 +117,7 @@ Why(e) ==
          ELSE IF ~(e.lo < e.hi /\ e.hi <= pulled) THEN "C01.SubmitOfUnpulledTask"
          ELSE IF Range(e.lo, e.hi) \cap submitted # {} THEN "C01.TaskSubmittedTwice"
          ELSE IF stopped \/ iterRaised THEN "C09.DispatchAfterStop"
-         ELSE IF started /\ ~d9 /\ conf.pre # 0 /\ Cardinality(InFlight) >= preB
+         ELSE IF started /\ ~d9 /\ conf.pre # 0 /\ Cardinality(InFlight) >= (IF preB = 0 THEN 1 ELSE preB)   \* (sequential mode: nothing is dispatched before the first pull)
               THEN "C09.InFlightBatches"
          ELSE "ok"
     [] e.ev = "TStart" ->
